@@ -202,6 +202,15 @@ template<class T> void float_funcs() {
         { auto r = glm::abs(a); decltype(r) sres; for (int i = 0; i < 6; ++i) sres[i / 2][i % 2] = glm::abs(a[i / 2][i % 2]); Ev e("lift"); e.str("cfg", C01_CFG).str("f", "abs").str("t", TI<T>::code()).str("q", "highp").num("n", 6).str("k", "m"); e.arg(a).val("s", sres).res(r).emit(); }
         { auto r = glm::abs(c); decltype(r) sres; for (int i = 0; i < 16; ++i) sres[i / 4][i % 4] = glm::abs(c[i / 4][i % 4]); Ev e("lift"); e.str("cfg", C01_CFG).str("f", "abs").str("t", TI<T>::code()).str("q", "highp").num("n", 16).str("k", "m"); e.arg(c).val("s", sres).res(r).emit(); }
         { auto r = glm::mix(c, d, t); decltype(r) sres; for (int i = 0; i < 16; ++i) sres[i / 4][i % 4] = glm::mix(c[i / 4][i % 4], d[i / 4][i % 4], t); Ev e("lift"); e.str("cfg", C01_CFG).str("f", "mix").str("t", TI<T>::code()).str("q", "highp").num("n", 16).str("k", "mms"); e.arg(c).arg(d).arg(t).val("s", sres).res(r).emit(); }
+        if constexpr (std::is_floating_point<T>::value) {      // operands of very different magnitude with weights 0, 1 and in between: the error budget of mix is set by its terms
+            static const double WIDE[] = { 1e8, 1.0, -3e7, 1e-4, 12345678.0, -1.0, 0.5, 65536.0, 3.0, 1e6, -1e-3, 2.0, 1e7, 7.0, -2.5e8, 0.125 };
+            glm::mat<4, 4, T, glm::defaultp> cw, dw; for (int i = 0; i < 16; ++i) { cw[i / 4][i % 4] = T(WIDE[(size_t(s) + i) % 16]); dw[i / 4][i % 4] = T(WIDE[(size_t(s) * 3 + i + 1) % 16]); }
+            for (T tw : { T(1), T(0), T(0.5), T(0.75) }) { auto r = glm::mix(cw, dw, tw); decltype(r) sres; for (int i = 0; i < 16; ++i) sres[i / 4][i % 4] = glm::mix(cw[i / 4][i % 4], dw[i / 4][i % 4], tw);
+                Ev e("lift"); e.str("cfg", C01_CFG).str("f", "mix").str("t", TI<T>::code()).str("q", "highp").num("n", 16).str("k", "mms"); e.arg(cw).arg(dw).arg(tw).val("s", sres).res(r).emit(); }
+            glm::vec<4, T, glm::defaultp> xw(cw[0]), yw(dw[0]);
+            for (T tw : { T(1), T(0), T(0.5), T(0.75) }) { auto r = glm::mix(xw, yw, tw); decltype(r) sres; for (int i = 0; i < 4; ++i) sres[i] = glm::mix(xw[i], yw[i], tw);
+                Ev e("lift"); e.str("cfg", C01_CFG).str("f", "mix").str("t", TI<T>::code()).str("q", "highp").num("n", 4).str("k", "vvs"); e.arg(xw).arg(yw).arg(tw).val("s", sres).res(r).emit(); }
+        }
         { glm::mat<3, 3, T, glm::defaultp> w; for (int i = 0; i < 9; ++i) w[i / 3][i % 3] = U[(size_t(s) + i) % U.size()]; auto r = glm::mix(g, h, w); decltype(r) sres; for (int i = 0; i < 9; ++i) sres[i / 3][i % 3] = glm::mix(g[i / 3][i % 3], h[i / 3][i % 3], w[i / 3][i % 3]);
           Ev e("lift"); e.str("cfg", C01_CFG).str("f", "mix").str("t", TI<T>::code()).str("q", "highp").num("n", 9).str("k", "mmm"); e.arg(g).arg(h).arg(w).val("s", sres).res(r).emit(); }
     }
